@@ -1,7 +1,9 @@
 import JugModel.Props.C01
+import JugModel.Props.WorkerBridge
 #print axioms Jug.C01.exec_sound
 #print axioms Jug.C01.loads_are_reference
 #print axioms Jug.C01.load_enabled
 #print axioms Jug.C01.rerun_noop
 #print axioms Jug.C01.exec_complete_partial
 #print axioms Jug.C01.started_tasks_have_reference_value
+#print axioms Jug.WorkerBridge.worker_conforms
